@@ -40,7 +40,95 @@ var R = hx.NewRecorder("C14", "cases = (key pair from leading-zero classes, pass
 
 var cv = rsm2.Std
 
+// firstDecode: ONE decoder call as the very first use of the library in a fresh process (material prepared by the parent
+// and handed over in the environment), compared with the expected key.
+func firstDecode(kind string) int {
+	data, _ := hex.DecodeString(os.Getenv("C14_DATA"))
+	wantD, _ := new(big.Int).SetString(os.Getenv("C14_D"), 16)
+	wantX, _ := new(big.Int).SetString(os.Getenv("C14_X"), 16)
+	wantY, _ := new(big.Int).SetString(os.Getenv("C14_Y"), 16)
+	fail := func(f string, a ...interface{}) int {
+		fmt.Printf("FIRST-OP MISMATCH ("+kind+"): "+f+"\n", a...)
+		return 1
+	}
+	checkPub := func(x, y *big.Int) int {
+		if x == nil || y == nil || x.Cmp(wantX) != 0 || y.Cmp(wantY) != 0 {
+			return fail("decoded public key (%x, %x), want (%x, %x)", x, y, wantX, wantY)
+		}
+		return 0
+	}
+	switch kind {
+	case "decompress":
+		pub := sm2.Decompress(data)
+		if pub == nil {
+			return fail("Decompress returned nil")
+		}
+		return checkPub(pub.X, pub.Y)
+	case "hexpriv":
+		k, err := gx509.ReadPrivateKeyFromHex(string(data))
+		if err != nil || k.D.Cmp(wantD) != 0 {
+			return fail("ReadPrivateKeyFromHex: %v", err)
+		}
+		return checkPub(k.X, k.Y)
+	case "hexpub":
+		k, err := gx509.ReadPublicKeyFromHex(string(data))
+		if err != nil {
+			return fail("ReadPublicKeyFromHex: %v", err)
+		}
+		return checkPub(k.X, k.Y)
+	case "pkcs8pem":
+		k, err := gx509.ReadPrivateKeyFromPem(data, nil)
+		if err != nil || k.D.Cmp(wantD) != 0 {
+			return fail("ReadPrivateKeyFromPem: %v", err)
+		}
+		return checkPub(k.X, k.Y)
+	case "pubpem":
+		k, err := gx509.ReadPublicKeyFromPem(data)
+		if err != nil {
+			return fail("ReadPublicKeyFromPem: %v", err)
+		}
+		return checkPub(k.X, k.Y)
+	}
+	return fail("unknown kind")
+}
+
+func TestC14_FirstDecode(t *testing.T) {
+	k := gen.Key{D: big.NewInt(0x51f3a9), Pub: cv.BaseMul(big.NewInt(0x51f3a9))}
+	priv, pub := sm2x.Priv(k), sm2x.Pub(k.Pub)
+	pemB, err := gx509.WritePrivateKeyToPem(priv, nil)
+	if err != nil {
+		t.Fatal(err)
+	}
+	pp, err := gx509.WritePublicKeyToPem(pub)
+	if err != nil {
+		t.Fatal(err)
+	}
+	material := map[string][]byte{
+		"decompress": sm2.Compress(pub),
+		"hexpriv":    []byte(gx509.WritePrivateKeyToHex(priv)),
+		"hexpub":     []byte(gx509.WritePublicKeyToHex(pub)),
+		"pkcs8pem":   pemB,
+		"pubpem":     pp,
+	}
+	x, y := k.Pub.Affine()
+	for kind, data := range material {
+		os.Setenv("C14_DATA", hex.EncodeToString(data))
+		os.Setenv("C14_D", k.D.Text(16))
+		os.Setenv("C14_X", x.Text(16))
+		os.Setenv("C14_Y", y.Text(16))
+		if failed := hx.FirstOpChildren("C14_CHILD", []string{kind}); len(failed) > 0 {
+			t.Fatalf("as the FIRST use of the library in a fresh process, decoding (%s) fails:\n%s", kind, failed[kind])
+		}
+		R.Case(true, hx.HashKey("firstdecode", kind), "first_decode")
+	}
+	os.Unsetenv("C14_DATA")
+}
+
 func TestMain(m *testing.M) {
+	if k := os.Getenv("C14_CHILD"); k != "" {
+		os.Exit(firstDecode(k))
+	}
+	R.Require("first_decode")
 	for _, s := range []string{"pkcs8pem", "pkcs8pem_pwd", "pubpem", "pkix", "hexpriv", "hexpub", "compress", "sigder", "cipherasn1"} {
 		R.Require(s+"/lz_d", s+"/lz_x", s+"/lz_y")
 	}
